@@ -991,6 +991,55 @@ struct Extractor
                 if (li != lambdaName(cm))
                     o.str("inst", li);
             }
+            // captures: name, by-reference?, and for init-captures the text /
+            // variables / callees / access path of the initialiser
+            {
+                std::vector<std::string> caps;
+                for (auto const& c : le->captures())
+                {
+                    JObj co;
+                    if (c.capturesThis())
+                    {
+                        co.str("n", "this");
+                    }
+                    else if (c.capturesVariable())
+                    {
+                        auto* vd = c.getCapturedVar();
+                        co.str("n", vd->getNameAsString());
+                        co.boolean("byref",
+                                   c.getCaptureKind() == LCK_ByRef);
+                        if (le->isInitCapture(&c) && vd->getInit())
+                        {
+                            Expr const* in = vd->getInit();
+                            co.str("init", text(in, 160));
+                            std::set<std::string> refs, calls;
+                            collectRefs(in, refs, calls);
+                            if (!refs.empty())
+                                co.raw("refs",
+                                       jstrlist(std::vector<std::string>(
+                                           refs.begin(), refs.end())));
+                            if (!calls.empty())
+                                co.raw("calls",
+                                       jstrlist(std::vector<std::string>(
+                                           calls.begin(), calls.end())));
+                            Path pp = pathOf(strip(in));
+                            if (pp.ok)
+                                co.raw("path", pathJson(pp));
+                        }
+                        else
+                        {
+                            co.str("ty", typeStr(vd->getType(), ctx));
+                        }
+                    }
+                    else
+                    {
+                        continue;
+                    }
+                    caps.push_back(co.done());
+                }
+                if (!caps.empty())
+                    o.raw("captures", jlist(caps));
+            }
             ev.push_back(o.done());
             return;
         }
